@@ -46,3 +46,26 @@ package rest
 //@   loop 0: invariant bound == idx && allok
 //@   call bindRoute#*: assert arg_router == router
 //@   ensures_local implies(result == nil, allok)
+
+// C18: every route is registered behind the authentication gate of its group (JWT and/or signature) - on a server with the
+// default chain and on one built with a custom chain alike: the gate is appended on every path before the handler is
+// registered, with the group's own settings and verifier
+//@ func (ng *engine) bindRoute
+//@   property C18
+//@   flag callbacks_noheap
+//@   ghost at entry: gated = false
+//@   ghost at after appendAuthHandler#0: gated = true
+//@   ghost at after appendAuthHandler#0: gc = ret
+//@   call appendAuthHandler#0: assert arg_fr.jwt.enabled == fr.jwt.enabled && arg_fr.jwt.secret == fr.jwt.secret && arg_fr.jwt.prevSecret == fr.jwt.prevSecret
+//@   loop 0: invariant gated
+//@   call Handle#0: assert gated && arg_method == route.Method && arg_path == route.Path
+//@ func (ng *engine) appendAuthHandler
+//@   property C18
+//@   flag callbacks_noheap
+//@   ghost at entry: az = false
+//@   ghost at after Authorize#0: az = true
+//@   ghost at after Authorize#1: az = true
+//@   call Authorize#*: assert arg_secret == fr.jwt.secret && fr.jwt.enabled
+//@   call WithPrevSecret#0: assert arg_secret == fr.jwt.prevSecret && len(fr.jwt.prevSecret) > 0
+//@   call verifier#0: assert az == fr.jwt.enabled
+//@   ensures calls(verifier) == old(calls(verifier)) + 1 && result == ret(verifier)
